@@ -1082,7 +1082,7 @@ def build_cases(ctx: Ctx):
 # ====================================================================== entry points
 def run(ctx: Ctx):
     from vf.prove import prove
-    prove(ctx, ["specs.helpers"], "C11")  # deductive part (specs/helpers.py)
+    prove(ctx, ["specs.helpers", "specs.paths"], "C11")  # deductive part (specs/helpers.py)
     from vf.pool import pmap
     use_repo()
     cases = build_cases(ctx)
